@@ -180,6 +180,15 @@ def run(ctx):
     for ns, wo, go, eo in (nested if not ctx.quick() else rng.sample(nested, 20)):
         cases.append(make_case(cm.G('seq', [cm.G('seq', [cm.W(ns, wo)], go), cm.E('b', eo)], (1, 1)), '1.1'))
         cases.append(make_case(cm.G('seq', [cm.E('c', (0, 1)), cm.G('seq', [cm.G('choice', [cm.W(ns, wo), cm.E('d')], (1, 1))], go), cm.E('b', eo)], (1, 1)), '1.1'))
+    # a nested group that must occur at least twice, inside a repeated sequence: a later repetition with too few inner
+    # occurrences ((a|b){2,2} c)+ with 'a a c a c' - words up to length 6 (the counters of the inner group across passes)
+    inners = [cm.G('choice', [cm.E('a'), cm.E('b')], (2, 2)), cm.G('choice', [cm.E('a'), cm.E('b')], (2, 3)), cm.E('a', (2, 3)),
+              cm.G('seq', [cm.E('a'), cm.E('b', (0, 1))], (2, 2)), cm.G('seq', [cm.E('b', (1, 3))], (1, 2)), cm.E('a', (2, 2))]
+    reps = [(inner, first, oo) for inner in inners for first in (True, False) for oo in [(1, None), (1, 2), (0, 2), (2, 2)]]
+    for inner, first, oo in (reps if not ctx.quick() else rng.sample(reps, 16)):
+        ps = [inner, cm.E('c')] if first else [cm.E('c'), inner]
+        for v in (('1.0', '1.1') if not ctx.quick() else (rng.choice(['1.0', '1.1']),)):
+            cases.append(make_case(cm.G('seq', ps, oo), v, n=6))
     # XSD 1.1: a wildcard next to the head of a substitution group; a member of the group is attributed to the head's particle
     heads = [(k, wfirst, wo, ho, ns) for k in ('seq', 'all') for wfirst in (True, False) for wo in [(0, 1), (0, None), (0, 2)]
              for ho in [(1, 1), (2, 2), (0, 1), (1, 2)] for ns in ('##any', '##targetNamespace')]
